@@ -48,6 +48,7 @@ package standard
 
 //@ func (*Service).SignBeaconAttestation
 //@ requires s != nil
+//@ requires [domaincap] data != nil ==> data.Domain == nil || cap(data.Domain) >= 4
 //@ requires [unlocked] !prelocked && (forall k [48]byte :: !held[k])
 //@ modifies tokroot, db, checkedset, held, prelocked
 //@ ensures [released] !prelocked && (forall k [48]byte :: !held[k])
@@ -68,6 +69,7 @@ package standard
 
 //@ func (*Service).SignBeaconProposal
 //@ requires s != nil
+//@ requires [domaincap] data != nil ==> data.Domain == nil || cap(data.Domain) >= 4
 //@ requires [unlocked] !prelocked && (forall k [48]byte :: !held[k])
 //@ modifies tokroot, db, checkedset, held, prelocked
 //@ ensures [released] !prelocked && (forall k [48]byte :: !held[k])
@@ -88,6 +90,7 @@ package standard
 
 //@ func (*Service).SignGeneric
 //@ requires s != nil
+//@ requires [domaincap] data != nil ==> data.Domain == nil || cap(data.Domain) >= 4
 //@ requires [unlocked] !prelocked && (forall k [48]byte :: !held[k])
 //@ modifies tokroot, db, checkedset, held, prelocked
 //@ ensures [released] !prelocked && (forall k [48]byte :: !held[k])
@@ -171,6 +174,7 @@ package standard
 //@ func (*Service).SignBeaconAttestations
 //@ requires s != nil
 //@ requires [lens] len(accountNames) <= len(data) && len(pubKeys) <= len(data)
+//@ requires [domaincap] forall j int :: 0 <= j && j < len(data) && data[j] != nil ==> data[j].Domain == nil || cap(data[j].Domain) >= 4
 //@ requires [unlocked] !prelocked && (forall k [48]byte :: !held[k])
 //@ modifies tokroot, db, checkedset, held, prelocked
 //@ ensures [released] !prelocked && (forall k [48]byte :: !held[k])
@@ -246,6 +250,7 @@ package standard
 //@ func (*Service).Multisign
 //@ requires s != nil
 //@ requires [lens] len(accountNames) <= len(data) && len(pubKeys) <= len(data)
+//@ requires [domaincap] forall j int :: 0 <= j && j < len(data) && data[j] != nil ==> data[j].Domain == nil || cap(data[j].Domain) >= 4
 //@ requires [unlocked] !prelocked && (forall k [48]byte :: !held[k])
 //@ modifies tokroot, db, checkedset, held, prelocked
 //@ ensures [released] !prelocked && (forall k [48]byte :: !held[k])
